@@ -2,9 +2,11 @@
 Tie between the model's two predicates of the ear-clipping loop (Model/Tri.lean `isCcw`, `inTriangle`)
 and the transcription of `is_ccw` / `in_triangle` from triangulate.rs (`Gen/SrcTriangulate.lean`,
 regenerated on every run).  Obligations of C03 (and of C04, C05, whose caps come from the same loop).
-The 2D entry points are transcribed as well (the loop `triangulate` named directly); the loop itself and
-the 3D entry points are hand-modelled and tied by correspondence.
+The 2D and 3D entry points are transcribed as well (the private loop `triangulate` named directly, with
+its own index panics explicit: `Tri.triangulateChecked`); the loop itself is hand-modelled and tied by
+correspondence.
 -/
+import Mathlib.Tactic.SplitIfs
 import ScadVerif.Gen.SrcTriangulate
 import ScadVerif.Model.Tri
 set_option linter.unusedSectionVars false
@@ -23,12 +25,89 @@ theorem zip_map_eta {β γ : Type} (l : List (β × γ)) : l.map (fun iv => (iv.
   induction l with
   | nil => rfl
   | cons a t ih => simp
+theorem checked_of_length (poly : Tri.Poly α) (h : 2 ≤ poly.length) :
+    Tri.triangulateChecked poly = some (Tri.triangulate poly) := by
+  unfold Tri.triangulateChecked
+  rw [if_neg (by omega)]
+theorem indexed_eq (vs : List (Pt2 α)) :
+    ([] : Tri.Poly α) ++ List.map (fun (iv : Nat × Pt2 α) => (iv.1, iv.2)) (List.zip (List.range vs.length) vs)
+      = Tri.indexed vs := by
+  simp [Tri.indexed, zip_map_eta]
+theorem indexed_length (vs : List (Pt2 α)) : (Tri.indexed vs).length = vs.length := by simp [Tri.indexed]
+
 theorem triangulate2d (vs : List (Pt2 α)) : Src.triangulate.triangulate2d vs = Tri.triangulate2d vs := by
-  unfold Src.triangulate.triangulate2d Tri.triangulate2d Tri.indexed
-  by_cases h : 3 < vs.length <;> simp [h, zip_map_eta]
+  unfold Src.triangulate.triangulate2d Tri.triangulate2d
+  by_cases h : 3 < vs.length
+  · simp only [h, decide_true, Bool.not_true, Bool.false_eq_true, if_false, if_true, gt_iff_lt]
+    show Tri.triangulateChecked (([] : Tri.Poly α) ++ _) = _
+    rw [indexed_eq, checked_of_length _ (by rw [indexed_length]; omega)]
+  · simp [h]
 theorem triangulate2d_rev (vs : List (Pt2 α)) :
     Src.triangulate.triangulate2d_rev vs = Tri.triangulate2dRev vs := by
-  unfold Src.triangulate.triangulate2d_rev Tri.triangulate2dRev Tri.indexed
-  by_cases h : 3 < vs.length <;> simp [h, zip_map_eta]
+  unfold Src.triangulate.triangulate2d_rev Tri.triangulate2dRev
+  by_cases h : 3 < vs.length
+  · simp only [h, decide_true, Bool.not_true, Bool.false_eq_true, if_false, if_true, gt_iff_lt]
+    show Tri.triangulateChecked (List.reverse (([] : Tri.Poly α) ++ _)) = _
+    rw [indexed_eq, checked_of_length _ (by rw [List.length_reverse, indexed_length]; omega)]
+  · simp [h]
+
+/-! ### the 3D entry points: classify the normal by its dominant axis, project, run the loop -/
+theorem indexed3_eq (vs : List (Pt3 α)) (f : Pt3 α → Pt2 α) :
+    ([] : Tri.Poly α) ++ List.map (fun (iv : Nat × Pt3 α) => (iv.1, f iv.2)) (List.zip (List.range vs.length) vs)
+      = Tri.indexed (vs.map f) := by
+  simp only [Tri.indexed, List.nil_append, List.length_map]
+  rw [List.zip_map_right]
+  rfl
+
+theorem proj_case (vs : List (Pt3 α)) (f : Pt3 α → Pt2 α) (h : 3 < vs.length) :
+    Tri.triangulateChecked (([] : Tri.Poly α) ++
+        List.map (fun (iv : Nat × Pt3 α) => (iv.1, f iv.2)) (List.zip (List.range vs.length) vs))
+      = some (Tri.triangulate (Tri.indexed (vs.map f))) := by
+  rw [indexed3_eq, checked_of_length _ (by rw [indexed_length, List.length_map]; omega)]
+theorem proj_case_rev (vs : List (Pt3 α)) (f : Pt3 α → Pt2 α) (h : 3 < vs.length) :
+    Tri.triangulateChecked (List.reverse (([] : Tri.Poly α) ++
+        List.map (fun (iv : Nat × Pt3 α) => (iv.1, f iv.2)) (List.zip (List.range vs.length) vs)))
+      = some (Tri.triangulate (Tri.indexed (vs.map f)).reverse) := by
+  rw [indexed3_eq, checked_of_length _ (by rw [List.length_reverse, indexed_length, List.length_map]; omega)]
+
+theorem triangulate3d (vs : List (Pt3 α)) (nml : Pt3 α) :
+    Src.triangulate.triangulate3d vs nml = Tri.triangulate3d vs nml := by
+  unfold Src.triangulate.triangulate3d Tri.triangulate3d Tri.classify
+  by_cases h : 3 < vs.length
+  · simp only [h, decide_true, Bool.not_true, Bool.false_eq_true, if_false, if_true]
+    cases (Cmp.leb (HasAbs.abs nml.y) (HasAbs.abs nml.x) && Cmp.leb (HasAbs.abs nml.z) (HasAbs.abs nml.x))
+    · cases (Cmp.leb (HasAbs.abs nml.x) (HasAbs.abs nml.y) && Cmp.leb (HasAbs.abs nml.z) (HasAbs.abs nml.y))
+      · cases (Cmp.leb (HasAbs.abs nml.x) (HasAbs.abs nml.z) && Cmp.leb (HasAbs.abs nml.y) (HasAbs.abs nml.z))
+        · rfl
+        · cases (Cmp.leb 0 nml.z)
+          · simp only [Nat.reduceEqDiff, decide_true, decide_false, if_true, if_false, Bool.false_eq_true]; exact proj_case vs (fun v => ⟨-v.x, v.y⟩) h
+          · simp only [Nat.reduceEqDiff, decide_true, decide_false, if_true, if_false, Bool.false_eq_true]; exact proj_case vs (fun v => ⟨v.x, v.y⟩) h
+      · cases (Cmp.leb 0 nml.y)
+        · simp only [Nat.reduceEqDiff, decide_true, decide_false, if_true, if_false, Bool.false_eq_true]; exact proj_case vs (fun v => ⟨v.x, v.z⟩) h
+        · simp only [Nat.reduceEqDiff, decide_true, decide_false, if_true, if_false, Bool.false_eq_true]; exact proj_case vs (fun v => ⟨-v.x, v.z⟩) h
+    · cases (Cmp.leb 0 nml.x)
+      · simp only [Nat.reduceEqDiff, decide_true, decide_false, if_true, if_false, Bool.false_eq_true]; exact proj_case vs (fun v => ⟨-v.y, v.z⟩) h
+      · simp only [Nat.reduceEqDiff, decide_true, decide_false, if_true, if_false, Bool.false_eq_true]; exact proj_case vs (fun v => ⟨v.y, v.z⟩) h
+  · simp [h]
+
+theorem triangulate3d_rev (vs : List (Pt3 α)) (nml : Pt3 α) :
+    Src.triangulate.triangulate3d_rev vs nml = Tri.triangulate3dRev vs nml := by
+  unfold Src.triangulate.triangulate3d_rev Tri.triangulate3dRev Tri.classify
+  by_cases h : 3 < vs.length
+  · simp only [h, decide_true, Bool.not_true, Bool.false_eq_true, if_false, if_true]
+    cases (Cmp.leb (HasAbs.abs nml.y) (HasAbs.abs nml.x) && Cmp.leb (HasAbs.abs nml.z) (HasAbs.abs nml.x))
+    · cases (Cmp.leb (HasAbs.abs nml.x) (HasAbs.abs nml.y) && Cmp.leb (HasAbs.abs nml.z) (HasAbs.abs nml.y))
+      · cases (Cmp.leb (HasAbs.abs nml.x) (HasAbs.abs nml.z) && Cmp.leb (HasAbs.abs nml.y) (HasAbs.abs nml.z))
+        · rfl
+        · cases (Cmp.leb 0 nml.z)
+          · simp only [Nat.reduceEqDiff, decide_true, decide_false, if_true, if_false, Bool.false_eq_true]; exact proj_case_rev vs (fun v => ⟨-v.x, v.y⟩) h
+          · simp only [Nat.reduceEqDiff, decide_true, decide_false, if_true, if_false, Bool.false_eq_true]; exact proj_case_rev vs (fun v => ⟨v.x, v.y⟩) h
+      · cases (Cmp.leb 0 nml.y)
+        · simp only [Nat.reduceEqDiff, decide_true, decide_false, if_true, if_false, Bool.false_eq_true]; exact proj_case_rev vs (fun v => ⟨v.x, v.z⟩) h
+        · simp only [Nat.reduceEqDiff, decide_true, decide_false, if_true, if_false, Bool.false_eq_true]; exact proj_case_rev vs (fun v => ⟨-v.x, v.z⟩) h
+    · cases (Cmp.leb 0 nml.x)
+      · simp only [Nat.reduceEqDiff, decide_true, decide_false, if_true, if_false, Bool.false_eq_true]; exact proj_case_rev vs (fun v => ⟨-v.y, v.z⟩) h
+      · simp only [Nat.reduceEqDiff, decide_true, decide_false, if_true, if_false, Bool.false_eq_true]; exact proj_case_rev vs (fun v => ⟨v.y, v.z⟩) h
+  · simp [h]
 
 end ScadVerif.TieTri
